@@ -424,6 +424,20 @@ theorem compile_err (isa : List (Str × Str)) (prog : List Program.ProgInstr) (p
         | some v => simp [hx] at hq
       simp [Isa.compileProgram, this]
 
+theorem compileProgram_length (isa : List (Str × Str)) (prog : List Program.ProgInstr) (hw : List (Instr Str))
+    (h : Isa.compileProgram isa prog = .ok hw) : hw.length = prog.length := by
+  induction prog generalizing hw with
+  | nil => simp [Isa.compileProgram] at h; subst h; rfl
+  | cons p ps ih =>
+    unfold Isa.compileProgram at h
+    split at h
+    · cases h
+    · split at h
+      · cases h
+      · rename_i rest hr
+        cases h
+        simp [ih rest hr]
+
 theorem checkCompiled_iff (j : Nat) (isa : List (Str × Str)) (prog : List Program.ProgInstr) (hw : List (Instr Str)) :
     checkCompiled j isa prog hw = none ↔ Forall2 (CompiledAs isa) prog hw := by
   induction prog generalizing j hw with
